@@ -97,6 +97,8 @@ def setup(ctx):
         if len(args) + len(kw) != 1 or (kw and 'target' not in kw):
             post['unrecognised'] = post.get('unrecognised', 0) + 1     # another call form: passed through un-judged
             return t
+        if _state.get('record') is not None:
+            _state['record'].append((self, args[0] if args else kw['target'], t))
         _post_decay_time(self, args[0] if args else kw['target'], t)
         return t
     decay_time_with_postcondition.__wrapped__ = orig_dt
@@ -277,6 +279,9 @@ def generate(ctx):
             c['target'] = {'mode': 'rel', 'x': 10 ** rng.uniform(-6, -0.35)}
             c['inject_offset'] = off
             yield 'decay', c
+    # the documented command line, a few formulas per shard
+    for text in rng.sample(['Co30Fe70', 'H2O', 'NaCl', 'Au', 'Mn', 'Al2O3', 'D2O', 'CaCO3', 'Cu', 'In', 'SiO2', 'Fe2O3'], 3):
+        yield 'cli', {'formula': text}
     # (acceptance probes ride along: see below)
     # exact boundary: single-product samples, target exactly A(0), one ulp above, one ulp below
     for _ in range(ctx.scale(20, 100)):
@@ -576,7 +581,64 @@ def check_decay(ctx, case):
         ctx.count('trigger.zero_activity_feature')
 
 
-CHECKS = {'decay': check_decay}
+CLI_UNITS_IN_UCI = {'uCi': 1.0, 'nCi': 1e-3, 'pCi': 1e-6, 'mCi': 1e3, 'Ci': 1e6,
+                    'Bq': 1 / 3.7e4, 'kBq': 1e3 / 3.7e4, 'MBq': 1e6 / 3.7e4}
+
+
+def check_cli(ctx, case):
+    """The documented command line `python -m periodictable.activation FORMULA` (activation.demo): the level and
+    the time it prints are the level Sample.decay_time was asked for (in its unit, uCi) and the time it returned;
+    that call itself is judged by the postcondition on decay_time (the 0.1 % band on the sample's own table)."""
+    import contextlib
+    import io
+    import re
+    import sys
+    A = _state['A']
+    demo = getattr(A, 'demo', None)
+    if not callable(demo):
+        ctx.count('anchor_missing.cli.demo')
+        ctx.note('activation.demo not found: the command-line route is not exercised')
+        return
+    del _state['anomalies'][:]
+    _state['record'] = []
+    out = io.StringIO()
+    argv = sys.argv
+    try:
+        sys.argv = ['periodictable.activation', case['formula']]
+        with contextlib.redirect_stdout(out):
+            demo()
+    except Exception as exc:
+        ctx.violation('python -m periodictable.activation %r raised %s: %s' % (case['formula'], type(exc).__name__, exc),
+                      kind='cli-exception', exc_type=type(exc).__name__)
+        return
+    finally:
+        sys.argv = argv
+        calls, _state['record'] = _state['record'], None
+    ctx.count('cli.runs')
+    m = re.search(r'decay to\s+([-+0-9.eE]+)\s*([A-Za-z]+)\s+is\s+([-+0-9.eE]+|inf|nan)\s*hours', out.getvalue())
+    if not m or m.group(2) not in CLI_UNITS_IN_UCI or len(calls) != 1:
+        ctx.count('cli.not_judged')      # another wording / no single decay_time call: nothing to compare
+        return
+    level = float(m.group(1)) * CLI_UNITS_IN_UCI[m.group(2)]
+    shown_t = float(m.group(3))
+    _sample, target, t = calls[0]
+    ctx.evaluated(2, 'cli')
+    ctx.count('cli.judged')
+    if not abs(level - target) <= 1e-5 * abs(target):
+        ctx.violation('python -m periodictable.activation %r says "decay to %s %s" (= %r uCi) but asked decay_time for '
+                      '%r uCi (answer %r h, printed %r h)' % (case['formula'], m.group(1), m.group(2), level, target, t, shown_t),
+                      kind='cli-level')
+    elif not abs(shown_t - float(t)) <= 1e-5 * abs(float(t)):
+        ctx.violation('python -m periodictable.activation %r prints %r hours, decay_time(%r) returned %r'
+                      % (case['formula'], shown_t, target, t), kind='cli-time')
+    for an in _state['anomalies']:
+        ctx.violation('python -m periodictable.activation %r: decay_time(%r) -> %r fails its postcondition: %r'
+                      % (case['formula'], target, t, an), kind='cli-' + an.get('kind', 'post'))
+    del _state['anomalies'][:]
+    ctx.distinct_case(('cli', case['formula']))
+
+
+CHECKS = {'decay': check_decay, 'cli': check_cli}
 
 
 def finish(ctx):
@@ -621,6 +683,8 @@ def finish(ctx):
     ctx.require('observed.returned_zero_at_or_below_target', 1, 'a request at or above the activity at removal must have returned 0')
     ctx.require('observed.positive_time_accepted', 1, 'a positive decay time must have been judged inside the 0.1% band')
     ctx.require('lists.nonzero_minimum', 1, 'rest-time lists without 0 must be exercised')
+    if not ctx.counters.get('anchor_missing.cli.demo'):
+        ctx.require('cli.runs', 1, 'the documented command line must have been run')
     ctx.require('outcome.accepted', 1, 'at least one returned time must have been judged correct')
     ctx.require('acceptance.injected', 1, 'the acceptance probe must have degraded at least one root')
     ctx.require('reach.decay_time.raise_RuntimeError', 1, 'the RuntimeError refusal must be reached')
